@@ -230,6 +230,20 @@ def repo_frame(stack):
 
 # ----------------------------------------------------------------- known findings
 
+def property_anchors(pid):
+    """Anchor files of a property, from the fixed properties.jsonl."""
+    try:
+        for line in open(os.path.join(VERIF, "properties.jsonl")):
+            line = line.strip()
+            if line:
+                rec = json.loads(line)
+                if rec["id"] == pid:
+                    return list(rec["anchors"]["files"])
+    except OSError:
+        pass
+    return []
+
+
 def load_known():
     known = []
     path = os.path.join(VERIF, "KNOWN_FINDINGS.txt")
@@ -259,6 +273,7 @@ def run_property(pid, tier, seed):
     evpath = os.path.join(EVDIR, pid + ".json")
     os.makedirs(os.path.dirname(evpath), exist_ok=True)
 
+    anchors = property_anchors(pid)
     parts = [p for p in spec["parts"] if tier in p.get("tiers", ("quick", "thorough"))]
     inconclusive = []
     # build (deduplicated), in parallel
@@ -363,7 +378,7 @@ def run_property(pid, tier, seed):
         # race reports
         for stacks in r["races"]:
             frames = [repo_frame(s) for s in stacks]
-            anchored = [f for f in frames if f and any(f[1] == a or f[1].startswith(a) for a in spec.get("anchors", []))]
+            anchored = [f for f in frames if f and any(f[1] == a for a in anchors)]
             key = " <-> ".join(sorted("%s" % (f[0] if f else "?") for f in frames))
             if len(stacks) >= 2 and len(anchored) == len(frames) and all(frames):
                 violations.append({"part": r["part"], "sig": "data-race:" + key.replace(" ", ""),
